@@ -64,7 +64,7 @@ def wind_roles(F: IntegrateFacts) -> Tuple[str, str]:
     return next(iter(socks)), next(iter(winds))
 
 
-def loop_iteration(prog: Program, F: IntegrateFacts, ev: Evaluator, ctx: Ctx):
+def loop_iteration(prog: Program, F: IntegrateFacts, ev: Evaluator, ctx: Ctx, rows_before=None, env_out=None):
     """Evaluate one iteration of the integration loop on a symbolic state (x, y, z, vx, vy, vz, t, wind wx..wz)."""
     tcc = prog.cls(C.M_TC, 'TrajectoryCalc')
     cfgc = prog.cls(C.M_TC, 'Config')
@@ -84,7 +84,7 @@ def loop_iteration(prog: Program, F: IntegrateFacts, ev: Evaluator, ctx: Ctx):
     env = {'self': selfv, F.func.positional[1]: SymObj('shot'),
            F.P: C.mk_vec(ev, st, prog, 'x', 'y', 'z'), F.V: C.mk_vec(ev, st, prog, 'vx', 'vy', 'vz'), F.t: S('t'),
            wname: C.mk_vec(ev, st, prog, 'wx', 'wy', 'wz'), sock: SymObj('wind_sock'),
-           'data_filter': SymObj('data_filter'), 'ranges': ev.new_list(st, []), 'it': S('it'),
+           'data_filter': SymObj('data_filter'), 'ranges': ev.new_list(st, list(rows_before or [])), 'it': S('it'),
            F.rho: S('rho_prev'), F.a: S('a_prev'), 'drag': S('drag_prev'), 'velocity': S('speed_prev')}
     for p in F.func.positional[2:]:
         env[p] = S(f'${p}')
@@ -123,6 +123,8 @@ def loop_iteration(prog: Program, F: IntegrateFacts, ev: Evaluator, ctx: Ctx):
             except Undecided:
                 env[n] = S(f'${n}')
     st.env.update(env)
+    if env_out is not None:
+        env_out.update(env)
     try:
         tree = ev.exec_block(F.loop.body, st, ctx)
     except Undecided as exc:
